@@ -156,6 +156,29 @@ func (s *Sim) Choose(kind string, n int) int {
 	return v
 }
 
+// ChooseFixed records v (mod n) as a choice. In a seeded run the harness supplies v (used to enumerate
+// a fault position across a batch of seeds); in a replay the logged value is used.
+func (s *Sim) ChooseFixed(kind string, n, v int) int {
+	if n <= 1 {
+		return 0
+	}
+	if s.replaying {
+		return s.Choose(kind, n)
+	}
+	v %= n
+	s.Choices = append(s.Choices, v)
+	if s.choiceLog != nil {
+		s.choiceLog(v)
+	}
+	return v
+}
+
+// Reseed replaces the PRNG of a seeded run (no effect on a replay, whose choices come from the log).
+// Harnesses that enumerate a fault position over one scripted history derive the history from x.
+func (s *Sim) Reseed(x uint64) {
+	s.rng = rand.New(rand.NewPCG(x, 0x9e3779b97f4a7c15))
+}
+
 // ChooseW picks an index with probability proportional to its weight (0 = never); the index is what is logged.
 func (s *Sim) ChooseW(kind string, weights []int) int {
 	n := len(weights)
